@@ -109,14 +109,14 @@ Proof.
   change (Z.to_N thrift_msgTypeMask) with 65535.
   rewrite Hm1, Hm2, N.eqb_refl. cbn [negb].
   rewrite slice_from_ok by (rewrite !len_app, !be_len; lia). cbn [bind].
-  rewrite drop_be4. unfold r_string. rewrite r_binary_gen_enc by exact Hn. cbn [to_msg_err bind].
+  rewrite drop_be4. unfold r_string. rewrite r_binary_gen_enc by exact Hn. cbn [to_msg_err to_msg_err_name bind].
   rewrite slice_from_ok by (rewrite !len_app, !be_len; lia). cbn [bind].
   replace (4 + (4 + len name)) with (len (be 4 (2147549184 + t) ++ be 4 (len name mod two32) ++ name))
     by (rewrite !len_app, !be_len; lia).
   replace (be 4 (2147549184 + t) ++ be 4 (len name mod two32) ++ name ++ be 4 (u32 seq) ++ rest)
     with ((be 4 (2147549184 + t) ++ be 4 (len name mod two32) ++ name) ++ be 4 (u32 seq) ++ rest)
     by now rewrite <- !app_assoc.
-  rewrite drop_app_len. rewrite r_i32_enc by exact Hs. cbn [to_msg_err bind].
+  rewrite drop_app_len. rewrite r_i32_enc by exact Hs. cbn [to_msg_err to_msg_err_name bind].
   rewrite !len_app, !be_len. unfold t. rewrite Z2N.id by (apply Z.mod_pos_bound; lia).
   f_equal. f_equal. lia.
 Qed.
@@ -174,13 +174,14 @@ Proof.
   destruct (negb _); [discriminate|].
   rewrite (slice_from_ok p 4) by lia. rewrite (slice_from_ok (p ++ ext) 4) by (rewrite len_app; lia). cbn [bind].
   rewrite (drop_app_le p ext 4 H4).
-  destruct (r_string (drop 4 p)) as [[nm l]|e|w|] eqn:E; cbn [to_msg_err bind]; try discriminate.
-  unfold r_string in *. rewrite (r_binary_gen_ext _ _ ext _ _ E). cbn [to_msg_err bind].
+  destruct (r_string (drop 4 p)) as [[nm l]|e|w|] eqn:E; cbn [to_msg_err to_msg_err_name bind]; try discriminate;
+    [|destruct (e =? e_neg_size)%Z; discriminate].
+  unfold r_string in *. rewrite (r_binary_gen_ext _ _ ext _ _ E). cbn [to_msg_err to_msg_err_name bind].
   apply r_binary_gen_bounded in E. rewrite drop_len in E by lia.
   rewrite (slice_from_ok p (4 + l)) by lia. rewrite (slice_from_ok (p ++ ext) (4 + l)) by (rewrite len_app; lia). cbn [bind].
   rewrite (drop_app_le p ext (4 + l)) by lia.
-  destruct (r_i32 (drop (4 + l) p)) as [[sq l2]|e|w|] eqn:E2; cbn [to_msg_err bind]; try discriminate.
-  rewrite (r_i32_ext _ ext _ _ E2). cbn [to_msg_err bind]. auto.
+  destruct (r_i32 (drop (4 + l) p)) as [[sq l2]|e|w|] eqn:E2; cbn [to_msg_err to_msg_err_name bind]; try discriminate.
+  rewrite (r_i32_ext _ ext _ _ E2). cbn [to_msg_err to_msg_err_name bind]. auto.
 Qed.
 
 (* the reader on a complete header, for every seq (as the int32 the writer saw) *)
